@@ -59,6 +59,31 @@ def _is_immutable_literal(node) -> bool:
     return False
 
 
+def check_assign_restores(check, an: Analysis, rule: str):
+    """StateHandler.assign puts the previous loop back on every way out of its block"""
+    assign = an.callee(HANDLER, 'assign')
+    paths = an.paths(assign)
+    verdict, n, bad = True, 0, None
+    for path in paths:
+        swaps = [i for i, e in enumerate(path.events) if e.kind == 'store'
+                 and e['path'] == 'self.loop']
+        holes = [i for i, e in enumerate(path.events) if e.kind == 'hole']
+        if not holes:
+            continue
+        n += 1
+        before = [i for i in swaps if i < holes[0]]
+        after = [i for i in swaps if i > holes[0]]
+        ok = len(before) == 1 and len(after) == 1 and \
+            _restores_saved(path.events[before[0]], path.events[after[0]], assign.fn)
+        if not ok:
+            verdict = False
+            bad = bad or path
+    check.instance(rule, 'StateHandler.assign:restores', verdict and n >= 3,
+                   where_fn(assign.fn), 'every way out of the managed block (%d paths incl. '
+                   'exceptions) stores the previously saved loop back' % n,
+                   path=rules.path_lines(bad) if bad else None, analysed=n)
+
+
 def run(check, an: Analysis):
     check.rule('X', 'thread confinement: state handle is thread-local; no other module/class '
                     'level mutable object can hold simulation state')
@@ -150,27 +175,7 @@ def run(check, an: Analysis):
                    'no global/nonlocal statement in %d functions' % len(an.p.functions),
                    analysed=len(an.p.functions))
     # ---- P ------------------------------------------------------------------
-    assign = an.callee(HANDLER, 'assign')
-    paths = an.paths(assign)
-    verdict, n, bad = True, 0, None
-    for path in paths:
-        swaps = [i for i, e in enumerate(path.events) if e.kind == 'store'
-                 and e['path'] == 'self.loop']
-        holes = [i for i, e in enumerate(path.events) if e.kind == 'hole']
-        if not holes:
-            continue
-        n += 1
-        before = [i for i in swaps if i < holes[0]]
-        after = [i for i in swaps if i > holes[0]]
-        ok = len(before) == 1 and len(after) == 1 and \
-            _restores_saved(path.events[before[0]], path.events[after[0]], assign.fn)
-        if not ok:
-            verdict = False
-            bad = bad or path
-    check.instance('P', 'StateHandler.assign:restores', verdict and n >= 3,
-                   where_fn(assign.fn), 'every way out of the managed block (%d paths incl. '
-                   'exceptions) stores the previously saved loop back' % n,
-                   path=rules.path_lines(bad) if bad else None, analysed=n)
+    check_assign_restores(check, an, 'P')
     run_m = an.callee(LOOP, 'run')
     verdict = False
     for path in an.paths(run_m):
